@@ -133,6 +133,12 @@ def compare_obs(mo, io, tol=1e-9, keys=None, traj_tol=1e-7):
     """Differences between one model observation and one implementation observation."""
     diffs = []
     merr, ierr = "error" in mo, "error" in io
+    if mo.get("error") == "divzero":
+        # outside the domain of every property (a category population or a user divisor is 0):
+        # the implementation yields nan/inf there; not compared
+        return ["SKIP divzero"]
+    if mo.get("error") == "model-timeout":
+        return ["SKIP model-timeout"]
     if merr or ierr:
         if merr != ierr:
             diffs.append("raise mismatch: model %s / impl %s" % (mo.get("error"), io.get("error")))
@@ -184,6 +190,8 @@ def compare(mres, ires, tol=1e-9, keys=None, obs_filter=None):
         if obs_filter is not None and not obs_filter(j):
             continue
         for d in compare_obs(mo, io, tol, keys):
+            if d.startswith("SKIP"):
+                continue
             diffs.append("obs %d: %s" % (j, d))
     return diffs
 
